@@ -424,7 +424,7 @@ func c10Cells(seed int64, thorough bool, race bool) []c10Cell {
 		// seeded random geometries and a large image per (src,dst)
 		for _, sk := range c10SrcKinds {
 			for _, dk := range c10DstKinds {
-				for k := 0; k < 3000; k++ {
+				for k := 0; k < 20000; k++ {
 					mode := []string{"same", "larger", "sub"}[rng.Intn(3)]
 					ox, oy := rng.Range(-50, 50), rng.Range(-50, 50)
 					if strings.HasPrefix(sk, "YCbCr") || sk == "NYCbCrA" {
